@@ -3,7 +3,8 @@
 # (HEAD + the uncommitted working-tree changes of /repo), run the checks against it, undo.
 # /repo itself is not touched, so this can run while /repo is being built or tested.
 P="$1"; shift
-WT=/tmp/wt/seedrepo
+WT=${SEED_WT:-/tmp/wt/seedrepo}
+TAG=${SEED_TAG:-seed}
 if [ ! -d "$WT" ]; then git -C /repo worktree add -q --detach "$WT" HEAD || exit 2; fi
 cd "$WT" || exit 2
 git checkout -q --detach "$(git -C /repo rev-parse HEAD)" 2>/dev/null
@@ -11,6 +12,6 @@ git checkout -q -- . ; git clean -fdq
 git -C /repo diff | git apply 2>/dev/null
 git apply "$P" || { echo "patch does not apply"; git checkout -q -- .; exit 2; }
 for id in "$@"; do
-  VERIF_REPO="$WT" VERIF_FACTS_TAG=seed /verif/bin/vcheck "$id" --no-evidence 2>&1 | grep -E "^==|FAIL|VIOLATION|ERROR" | cut -c1-260
+  VERIF_REPO="$WT" VERIF_FACTS_TAG=$TAG /verif/bin/vcheck "$id" --no-evidence 2>&1 | grep -E "^==|FAIL|VIOLATION|ERROR" | cut -c1-260
 done
 git checkout -q -- . ; git clean -fdq
